@@ -6,6 +6,7 @@
    too (Gen/FlawGen.v). *)
 From Coq Require Import List String Ascii Bool Arith.
 Import ListNotations.
+From ClasticV Require Import Gen.MiscShape.
 From ClasticV Require Import Base.Py Base.Strs Model.Errors Model.Flaw Gen.FlawGen Gen.Templates
      Proofs.ErrorsProofs Proofs.FlawProofs.
 Local Open Scope list_scope.
@@ -81,3 +82,50 @@ Example C20_example :
   last_line ("Traceback (most recent call last):" ++ nl ++ "  File ""x.py"", line 2" ++ nl ++ "NameError: name 'p' is not defined" ++ nl)
   = "NameError: name 'p' is not defined" /\ last_line "" = "Unknown error" /\ last_line "<b>" = "<b>".
 Proof. vm_compute. repeat split; reflexivity. Qed.
+
+(* obligation on the source: create_app, get_flaw_info and _filter_site_files of flaw.py, statement by statement *)
+Theorem C20_flaw_shape :
+  SK_FLAW_CREATE_APP =
+  ["if monitored_files";
+   "  monitored_files.sort(key=lambda x: len(x))";
+   "non_site_files = _filter_site_files(monitored_files)";
+   "try";
+   "  parsed_tb = _ParsedTB.from_string(traceback_string)";
+   "  parsed_error = parsed_tb.to_dict()";
+   "except <bare>";
+   "  parsed_error = {}";
+   "resources = {'tb_str': traceback_string, 'parsed_error': parsed_error, 'all_mon_files': monitored_files, 'mon_files': non_site_files}";
+   "arf = AshesRenderFactory()";
+   "arf.register_source('flaw_tmpl', _FLAW_TEMPLATE)";
+   "routes = [('/', get_flaw_info, 'flaw_tmpl'), ('/clastic_assets/', StaticApplication(_ASSET_PATH)), ('/<_ignored*>', get_flaw_info, 'flaw_tmpl')]";
+   "app = Application(routes, resources, render_factory=arf)";
+   "return app"] /\
+  SK_FLAW_GET_FLAW_INFO =
+  ["try";
+   "  last_line = tb_str.splitlines()[-1]";
+   "except <bare>";
+   "  last_line = u'Unknown error'";
+   "return {'mon_files': mon_files, 'all_mon_files': all_mon_files, 'parsed_err': parsed_error, 'last_line': last_line, 'tb_str': tb_str}"] /\
+  SK_FLAW_FILTER_SITE_FILES =
+  ["ret = paths or []";
+   "if not paths";
+   "  return ret";
+   "main_lib_dir = os.path.dirname(ast.__file__)";
+   "ret = [fn for fn in ret if not fn.startswith(main_lib_dir)]";
+   "venv_lib_dir = os.path.dirname(os.__file__)";
+   "ret = [fn for fn in ret if not fn.startswith(venv_lib_dir)]";
+   "try";
+   "  import werkzeug";
+   "  venv_site_dir = os.path.dirname(werkzeug.__file__)";
+   "  ret = [fn for fn in ret if not fn.startswith(venv_site_dir)]";
+   "except <bare>";
+   "  pass";
+   "try";
+   "  import clastic";
+   "  clastic_dir = os.path.dirname(clastic.__file__)";
+   "  ret = [fn for fn in ret if not fn.startswith(clastic_dir)]";
+   "except <bare>";
+   "  pass";
+   "return ret"].
+Proof. repeat split; reflexivity. Qed.
+Print Assumptions C20_flaw_shape.
